@@ -138,8 +138,28 @@ def all_pairs(tier, rng, reps=(1, 10)):
                 yield a, b
 
 
-# ------------------------------------------------------------------ construction from data of a dtype
+# ------------------------------------------------------------------ construction from data of a dtype / with dtype=
+def _dict(s):
+    return {tuple(e): c for e, (_, c) in zip(s["exponents"], terms(s))}
+
+
+def _items(s):
+    p = tpoly(s)
+    return [p[i] for i in range(s["shape"][0])]
+
+
+# route -> builder(numpoly, first column, spec, extra keyword arguments)
+ROUTES = {
+    "array": lambda n, x, s, kw: n.polynomial(x, **kw), "scalar": lambda n, x, s, kw: n.polynomial(x[()], **kw),
+    "as_array": lambda n, x, s, kw: n.aspolynomial(x, **kw), "as_poly": lambda n, x, s, kw: n.aspolynomial(tpoly(s), **kw),
+    "attrs": lambda n, x, s, kw: tpoly(s, **kw), "attrs_clean": lambda n, x, s, kw: tpoly(s, retain_coefficients=False, retain_names=False, **kw),
+    "dict": lambda n, x, s, kw: n.polynomial(_dict(s), names=tuple(s["names"]), **kw), "poly": lambda n, x, s, kw: n.polynomial(tpoly(s), **kw),
+    "struct": lambda n, x, s, kw: n.polynomial(tpoly(s).values, names=tuple(s["names"])), "compose": lambda n, x, s, kw: n.polynomial(_items(s), **kw),
+    "iter": lambda n, x, s, kw: n.polynomial(list(tpoly(s))), "copy": lambda n, x, s, kw: tpoly(s).copy(),
+    "astype": lambda n, x, s, kw: tpoly(s).astype(kw["dtype"]), "astype_dtype_object": lambda n, x, s, kw: tpoly(s).astype(numpy.dtype(kw["dtype"])),
+}
 CTORS = ["array", "scalar", "as_array", "attrs", "attrs_clean", "dict", "poly", "struct", "compose", "iter", "copy"]
+DCTORS = ["array", "as_array", "as_poly", "poly", "attrs", "dict", "compose", "astype", "astype_dtype_object"]
 
 
 def gen_from_data(tier, rng):
@@ -156,42 +176,13 @@ def gen_from_data(tier, rng):
                   "numpoly.ndpoly.__iter__", "numpoly.construct.compose.compose_polynomial_array"),
        note="bounded: all 14 dtypes x 11 construction routes (ndarray, numpy scalar, attributes, dict, ndpoly, raw structured "
             "view, list of polynomials, iteration, copy); <=3 terms, <=2 indeterminates, exponents<=2, 5 shapes, C/Fortran/strided/read-only data; "
-            "values incl. dtype extremes; result dtype = data dtype, values bit-for-value equal")
+            "values incl. dtype extremes; result dtype = data dtype, values equal")
 @quiet
 def from_data(inp):
     import numpoly
-    s, ctor = inp["p"], inp["ctor"]
-    a, tms, shape = s["dtype"], terms(s), tuple(s["shape"])
-    x = tms[0][1]
-    if ctor == "array":
-        r = numpoly.polynomial(x)
-    elif ctor == "scalar":
-        r = numpoly.polynomial(x[()])
-    elif ctor == "as_array":
-        r = numpoly.aspolynomial(x)
-    elif ctor == "attrs":
-        r = tpoly(s)
-    elif ctor == "attrs_clean":
-        r = tpoly(s, retain_coefficients=False, retain_names=False)
-    elif ctor == "dict":
-        r = numpoly.polynomial({tuple(e): c for e, (_, c) in zip(s["exponents"], tms)}, names=tuple(s["names"]))
-    elif ctor == "poly":
-        r = numpoly.polynomial(tpoly(s))
-    elif ctor == "struct":
-        p = tpoly(s)
-        r = numpoly.polynomial(p.values, names=p.names)
-    elif ctor == "compose":
-        p = tpoly(s)
-        r = numpoly.polynomial([p[i] for i in range(shape[0])])
-    elif ctor == "iter":
-        r = numpoly.polynomial(list(tpoly(s)))
-    else:
-        r = tpoly(s).copy()
-    return judge(r, tms, a, shape)
-
-
-# ------------------------------------------------------------------ dtype requested at construction / astype
-DCTORS = ["array", "as_array", "as_poly", "poly", "attrs", "dict", "compose", "astype", "astype_dtype_object"]
+    s = inp["p"]
+    tms = terms(s)
+    return judge(ROUTES[inp["ctor"]](numpoly, tms[0][1], s, {}), tms, s["dtype"], tuple(s["shape"]))
 
 
 def gen_request(tier, rng):
@@ -204,29 +195,9 @@ def gen_request(tier, rng):
 
 def _request(inp):
     import numpoly
-    s, b, ctor = inp["p"], inp["b"], inp["ctor"]
-    tms, shape = terms(s), tuple(s["shape"])
-    x = tms[0][1]
-    if ctor == "array":
-        r = numpoly.polynomial(x, dtype=b)
-    elif ctor == "as_array":
-        r = numpoly.aspolynomial(x, dtype=b)
-    elif ctor == "as_poly":
-        r = numpoly.aspolynomial(tpoly(s), dtype=b)
-    elif ctor == "poly":
-        r = numpoly.polynomial(tpoly(s), dtype=b)
-    elif ctor == "attrs":
-        r = tpoly(s, dtype=b)
-    elif ctor == "dict":
-        r = numpoly.polynomial({tuple(e): c for e, (_, c) in zip(s["exponents"], tms)}, names=tuple(s["names"]), dtype=b)
-    elif ctor == "compose":
-        p = tpoly(s)
-        r = numpoly.polynomial([p[i] for i in range(shape[0])], dtype=b)
-    elif ctor == "astype":
-        r = tpoly(s).astype(b)
-    else:
-        r = tpoly(s).astype(numpy.dtype(b))
-    return judge(r, cast_terms(tms, b), b, shape)
+    s, b = inp["p"], inp["b"]
+    tms = terms(s)
+    return judge(ROUTES[inp["ctor"]](numpoly, tms[0][1], s, {"dtype": b}), cast_terms(tms, b), b, tuple(s["shape"]))
 
 
 def only(*ctors):
@@ -260,9 +231,17 @@ def astype_cast(inp):
     return _request(inp)
 
 
+SYMBOL_FORMS = {
+    "variable": lambda n, b: (n.variable(dtype=b), ["q0"], ()), "variable2": lambda n, b: (n.variable(2, dtype=b), ["q0", "q1"], (2,)),
+    "variable_arr": lambda n, b: (n.variable(1, asarray=True, dtype=b), ["q0"], (1,)), "symbols_none": lambda n, b: (n.symbols(dtype=b), ["q0"], ()),
+    "symbols_one": lambda n, b: (n.symbols("q3", dtype=b), ["q3"], ()), "symbols_list": lambda n, b: (n.symbols("q1,q4", dtype=b), ["q1", "q4"], (2,)),
+    "symbols_range": lambda n, b: (n.symbols("q:3", dtype=b), ["q0", "q1", "q2"], (3,)),
+}
+
+
 def gen_symbols(tier, rng):
     for b in DTYPES:
-        for form in ["variable", "variable2", "variable_arr", "symbols_none", "symbols_one", "symbols_list", "symbols_range"]:
+        for form in SYMBOL_FORMS:
             yield {"b": b, "form": form}
 
 
@@ -273,20 +252,7 @@ def symbols_dtype(inp):
     import numpoly
     b, form = inp["b"], inp["form"]
     one = numpy.ones((), dtype=b)
-    if form == "variable":
-        r, names, shape = numpoly.variable(dtype=b), ["q0"], ()
-    elif form == "variable2":
-        r, names, shape = numpoly.variable(2, dtype=b), ["q0", "q1"], (2,)
-    elif form == "variable_arr":
-        r, names, shape = numpoly.variable(1, asarray=True, dtype=b), ["q0"], (1,)
-    elif form == "symbols_none":
-        r, names, shape = numpoly.symbols(dtype=b), ["q0"], ()
-    elif form == "symbols_one":
-        r, names, shape = numpoly.symbols("q3", dtype=b), ["q3"], ()
-    elif form == "symbols_list":
-        r, names, shape = numpoly.symbols("q1,q4", dtype=b), ["q1", "q4"], (2,)
-    else:
-        r, names, shape = numpoly.symbols("q:3", dtype=b), ["q0", "q1", "q2"], (3,)
+    r, names, shape = SYMBOL_FORMS[form](numpoly, b)
     tms = []
     for i, n in enumerate(names):
         c = numpy.zeros(shape, dtype=b)
